@@ -64,7 +64,7 @@ func wrapGraphNodeError(nodeKey string, err error) error {
 	if ok := isInterruptError(err); ok {
 		return err
 	}
-	// only the error itself is extended in place: an *internalError further down the chain (the node wrapped the error
+	// only the error itself is extended: an *internalError further down the chain (the node wrapped the error
 	// of a nested run with its own error) must not replace what the node returned
 	ie, ok := err.(*internalError)
 	if !ok {
@@ -74,8 +74,14 @@ func wrapGraphNodeError(nodeKey string, err error) error {
 			origError: err,
 		}
 	}
-	ie.nodePath.path = append([]string{nodeKey}, ie.nodePath.path...)
-	return ie
+	// the extended error is a new object: the one the node returned may be shared with other runs (a memoised
+	// result) and with callers that already hold it
+	return &internalError{
+		typ:               ie.typ,
+		streamWrapperPath: ie.streamWrapperPath,
+		nodePath:          NodePath{path: append([]string{nodeKey}, ie.nodePath.path...)},
+		origError:         ie.origError,
+	}
 }
 
 func newStreamWrapperError(streamWrapperType defaultImplAction, err error) error {
@@ -98,8 +104,12 @@ func wrapStreamWrapperError(streamWrapperType defaultImplAction, err error) erro
 			origError:         err,
 		}
 	}
-	ie.streamWrapperPath = append([]defaultImplAction{streamWrapperType}, ie.streamWrapperPath...)
-	return ie
+	return &internalError{
+		typ:               ie.typ,
+		streamWrapperPath: append([]defaultImplAction{streamWrapperType}, ie.streamWrapperPath...),
+		nodePath:          ie.nodePath,
+		origError:         ie.origError,
+	}
 }
 
 type internalErrorType string
